@@ -14,7 +14,7 @@ def job_rf_field(res, model, n, nb, q, p):
     """O1: the displacement field the RF constructor computes, for symbolic machine parameters and a grid shifted differently in q and p"""
     bld = maps_build(); mod = load_module(bld, MAPS_MODS)
     snap, R, pre = maps_world(bld, n, nb, 4, qmin=q[0], qmax=q[1], pmin=p[0], pmax=p[1])
-    validate(res, mod, snap, pre)
+    (validate(res, mod, snap, pre) if n <= 64 else None)
     ex = Exec(mod, snap, RealDom(), {UPDATE_SM: ext_noop}); st = State()
     fRF = z3.Real('fRF'); st.pc += [fRF > 1000]
     xc = zerobin(q[0], q[1], n)
